@@ -9,9 +9,14 @@
                -> st=<status code> n=<*outNumSamples> pos=<bit position at the exit> data=<hex of the n frames, 8 digits an item> (q: fnv:<hash>)
       sfmodel alaccore enc-escape   one packet per stdin line, every element written uncompressed:
           bits=<n> ch=<n> [rule=old1|old2 mixres=<k>] <hex of the interleaved caller ints, 8 digits an item>  -> <hex packet>
+      sfmodel alaccore enc          encoder sessions (`alac_encode` with its search; the coefficient state persists from packet to packet):
+          == <name>
+          cfg bits=<n> ch=<n>
+          frames <hex of the interleaved caller ints of one packet, 8 digits an item>  -> <hex packet>
       sfmodel alaccore bits         `<b0> <b1> <b2> <bitIndex> <n>` -> `<BitBufferRead window> <bit-list read>`
 -/
 import SfModel.AlacDec
+import SfModel.AlacEnc
 import Driver.Util
 open Sf Sf.AlacCore
 
@@ -76,9 +81,29 @@ def staleMix24 (mixres : Int) (ls rs : List Int) : List Int × List Int :=
 def layoutChan (numChannels : Nat) : List (Nat × Bool) :=
   ((layout numChannels).foldl (fun (acc : List (Nat × Bool) × Nat) t => (acc.1 ++ [(acc.2, t == ID_CPE)], acc.2 + (if t = ID_CPE then 2 else 1))) ([], 0)).1
 
+partial def encLoop (h : IO.FS.Stream) (cfg : Config) (st : EncState) : IO Unit := do
+  let line ← h.getLine
+  if line.isEmpty then return
+  let l := line.trimAscii.toString
+  let toks := (l.splitOn " ").filter (· ≠ "")
+  match toks with
+  | "==" :: _ => IO.println l; encLoop h cfg st
+  | "cfg" :: rest =>
+    let cfg : Config := { bitDepth := kvNat rest "bits" 16, numChannels := kvNat rest "ch" 1 }
+    encLoop h cfg (EncState.init cfg.numChannels)
+  | ["frames", hex] =>
+    let items := (parseHexItems 8 hex).map (sext 32)
+    let frames := if cfg.numChannels = 0 then [] else groups cfg.numChannels items
+    let (pk, st1) := encode cfg st frames
+    IO.println (hexBytes pk)
+    encLoop h cfg st1
+  | [] => encLoop h cfg st
+  | _ => IO.println "bad-op"; encLoop h cfg st
+
 def cmd (args : List String) : IO UInt32 := do
   match args with
   | ["dec"] => loop (← IO.getStdin) {}; return 0
+  | ["enc"] => encLoop (← IO.getStdin) { bitDepth := 16, numChannels := 1 } (EncState.init 1); return 0
   | ["enc-escape"] =>
     for line in (← readLines) do
       let toks := (line.splitOn " ").filter (· ≠ "")
